@@ -295,6 +295,26 @@ fn name_text(n: &MName, origin: Option<&MName>, t: &mut Tape) -> String {
     s
 }
 
+/// Absolute name in the most conservative master-file spelling: letters,
+/// digits, '-', '_' and '*' as they are, every other octet as `\DDD`.
+pub fn absolute_name_text(n: &MName) -> String {
+    if n.labels.is_empty() {
+        return ".".to_string();
+    }
+    let mut s = String::new();
+    for l in &n.labels {
+        for &b in l {
+            if b.is_ascii_alphanumeric() || b == b'-' || b == b'_' || b == b'*' {
+                s.push(b as char);
+            } else {
+                s.push_str(&format!("\\{b:03}"));
+            }
+        }
+        s.push('.');
+    }
+    s
+}
+
 fn char_string_text(s: &[u8], t: &mut Tape) -> String {
     let must_quote = s.is_empty();
     if must_quote || t.pick(2) == 0 {
